@@ -1,7 +1,7 @@
 """Decoder analyses: A8 window typestate, read_to_buffer refill domain, skip_item structure."""
 from . import ir, minieval
 from .ir import (cond, conjuncts, path, path_str, unwrap, unwrap_all_casts, callee_name, callee_qn, const_value,
-                 show, show_f, Env)
+                 show, show_f, Env, int_key)
 
 DEC = "CDNS::CdnsDecoder"
 FRESHENERS = ("read_to_buffer", "peek_type")
@@ -35,6 +35,7 @@ class Typestate:
     def __init__(self, fn):
         self.fn = fn
         self.derefs = []    # (node, state ok?, line, why)
+        self.moves = []     # unit moves (m_p++): (node, ok, line, why)
 
     def expr(self, e, st):
         """Evaluate expression in evaluation order; returns state after."""
@@ -66,6 +67,11 @@ class Typestate:
         if is_mp_move(e):
             for c in ir.children(e):
                 st = self.expr(c, st)
+            if e.get("k") == "Un" and e.get("op") in ("post++", "pre++"):
+                # a unit step is inside the window only directly after a refill check (m_p < m_end)
+                self.moves.append((e, st == "Fresh", e.get("l", 0),
+                                   "m_p++ directly after a refill check (m_p < m_end holds)" if st == "Fresh" else
+                                   "m_p++ without a refill check since m_p last moved: the cursor can step past m_end"))
             return "Stale"
         if k in ("MCall", "Call"):
             for c in ir.children(e):
@@ -149,7 +155,130 @@ class Typestate:
             if not ok:
                 a[1] = False
                 a[3] = why
-        return list(agg.values())
+        out = list(agg.values())
+        # second chance: a read at offset k inside an explicit window test `(m_end - m_p) >= n` with k < n and
+        # m_p unmoved between the test and the read
+        if any(not a[1] for a in out):
+            proofs = window_proofs(self.fn)
+            for a in out:
+                if not a[1] and id(a[0]) in proofs:
+                    a[1] = True
+                    a[3] = proofs[id(a[0])]
+        return out
+
+
+WINDOW = "this.m_end - this.m_p"
+
+
+def _loop_counts_up_from_zero(loops, key):
+    for lp in loops:
+        if lp.get("k") == "For" and lp.get("init") is not None and lp["init"].get("k") == "Decl":
+            for v in lp["init"].get("vars", []):
+                if "n" in v and "l:%s#%s" % (v["n"], v["id"]) == key and const_value(v.get("init")) == 0:
+                    inc = unwrap(lp.get("inc")) if lp.get("inc") is not None else None
+                    if isinstance(inc, dict) and inc.get("k") == "Un" and inc.get("op") in ("post++", "pre++"):
+                        return True
+    return False
+
+
+def value_set(fn, env, key, guard):
+    """Finite value set of a never-reassigned local whose definition depends on one parameter with a small guarded
+    range (constant propagation over <= 256 values), else None."""
+    from . import ranges
+    d = env.definition((key,))
+    if d is None:
+        return None
+    params = set()
+    for x in ir.walk(d):
+        if x.get("k") == "Ref":
+            if x.get("d") == "param":
+                params.add((x["n"], x.get("t")))
+            elif x.get("d") != "enumconst":
+                return None
+    if len(params) != 1:
+        return None
+    (pn, pt), = params
+    tr = ranges.type_range(pt)
+    if tr is None:
+        return None
+    lo, hi = ranges.Ctx(guard, env, None, ()).refine("p:%s" % pn, tr[0], tr[1])
+    if hi - lo > 255:
+        return None
+    out = set()
+    for v in range(lo, hi + 1):
+        try:
+            out.add(minieval.ev(unwrap(d), {"p:%s" % pn: v}))
+        except minieval.Unknown:
+            return None
+    return out
+
+
+def window_proofs(fn):
+    """id(deref node) -> reason, for m_p[k] reads dominated by a test that at least n > k bytes are in the window."""
+    env = Env(fn["body"])
+    order = {id(n): i for i, n in enumerate(ir.walk(fn["body"]))}
+    moves = [order[id(n)] for n in ir.walk(fn["body"]) if is_mp_move(n)]
+    refills = [order[id(n)] for n in ir.walk(fn["body"]) if n.get("k") == "MCall" and (n.get("callee") or {}).get("cls") == DEC]
+    # the If statements whose condition is a window test
+    tests = []
+    for n in ir.walk(fn["body"]):
+        if n.get("k") == "If" and WINDOW in show(n.get("cond")):
+            tests.append(n)
+    out = {}
+    for st, g, loops in ir.guarded_statements_lc(fn["body"], env):
+        if st.get("k") in ("IfCond", "LoopHead", "SwitchHead"):
+            continue
+        atoms = conjuncts(g)
+        # non-constant offsets: m_p[i] with i < X and X <= window (both from dominating guards / the loop header)
+        win_vars = set(a[2] for a in atoms if a[0] == "cmp" and a[1] in ("<=", "<") and WINDOW in a[3])
+        for d in ir.walk(st):
+            if d.get("k") == "Index" and path(d.get("base")) == ("this", "m_p") and const_value(d.get("idx")) is None:
+                ik = int_key(d.get("idx"), env)
+                below = [a[3] for a in atoms if a[0] == "cmp" and a[1] == "<" and a[2] == ik]
+                nonneg = any(a[0] == "cmp" and a[1] in ("<=",) and a[2] == "0" and a[3] == ik for a in atoms) or \
+                    (unwrap(d.get("idx")) or {}).get("t", "").startswith("unsigned") or _loop_counts_up_from_zero(loops, ik)
+                anc = [t for t in tests if any(x is d for x in ir.walk(t.get("then")))]
+                if anc and nonneg and any(b in win_vars for b in below):
+                    t0 = max(order[id(t)] for t in anc)
+                    if not any(t0 < m < order[id(d)] for m in moves):
+                        out[id(d)] = "index %s is below %s, which the enclosing window test bounds by the bytes left in the window" % (ik, [b for b in below if b in win_vars][0])
+        bound = None
+        for a in atoms:
+            if a[0] == "cmp" and a[1] in ("<=", "<") and WINDOW in a[3]:
+                L = a[2]
+                if L.lstrip("-").isdigit():
+                    bound = int(L) + (1 if a[1] == "<" else 0)
+                else:
+                    for b in atoms:
+                        if b[0] == "cmp" and b[1] == "==" and L in (b[2], b[3]):
+                            other = b[3] if b[2] == L else b[2]
+                            if other.lstrip("-").isdigit():
+                                bound = int(other) + (1 if a[1] == "<" else 0)
+                    if bound is None:
+                        vals = value_set(fn, env, L, g)
+                        if vals:
+                            for b in atoms:
+                                if b[0] == "cmp" and b[1] == "!=" and L in (b[2], b[3]):
+                                    other = b[3] if b[2] == L else b[2]
+                                    if other.lstrip("-").isdigit():
+                                        vals.discard(int(other))
+                            if vals:
+                                bound = min(vals) + (1 if a[1] == "<" else 0)
+        if bound is None:
+            continue
+        for d in ir.walk(st):
+            dk = is_mp_deref(d)
+            if dk is None or dk[1] is None:
+                continue
+            # innermost enclosing window test
+            anc = [t for t in tests if any(x is d for x in ir.walk(t.get("then")))]
+            if not anc:
+                continue
+            t0 = max(order[id(t)] for t in anc)
+            moved = any(t0 < m < order[id(d)] for m in moves) or any(t0 < r < order[id(d)] and r > t0 + 0 and False for r in refills)
+            if 0 <= dk[1] < bound and not moved:
+                out[id(d)] = "offset %d is inside the %d bytes the enclosing window test guarantees, and m_p has not moved since that test" % (dk[1], bound)
+    return out
 
 
 # ------------------------------------------------------------------ read_to_buffer refill domain
@@ -228,3 +357,127 @@ def analyse_refill(fn):
     return False, leafs[idx_end][0].get("l", fn["line"]), \
         "read_to_buffer returns normally after a refill of 0 bytes (m_p == m_end): eof()/fail() tests before the read do not " \
         "cover an empty stream, a length that is a multiple of the buffer size or an unreadable stream; the caller then reads stale buffer bytes"
+
+
+def cursor_moves(fn):
+    """Obligations for every write to m_p / m_end and every bulk read through m_p:
+    [(node, ok (True/False/None), text)].
+      m_p++ / ++m_p           : allowed directly after a refill check (state Fresh), decided by the typestate pass
+      m_p += n / m_p = m_p+n  : n must be compared with the window `m_end - m_p` by a dominating guard (a test written as
+                                `m_p + n > m_end` does not count: the pointer sum wraps for a wire-controlled n)
+      m_p = m_buffer / m_end  : refill / exhaust
+      f(m_p, n) (append, memcpy, assign, insert ...): bulk read of n bytes, same bound as a move by n"""
+    env = Env(fn["body"])
+    out = []
+    order = {id(n): i for i, n in enumerate(ir.walk(fn["body"]))}
+    # window-changing events with the dead-end region they are confined to (a branch that always leaves the function
+    # or the loop cannot influence statements outside of it)
+    move_events = []
+    for n, parents in ir.walk_with_parents(fn["body"]):
+        if is_mp_move(n) or (n.get("k") == "MCall" and (n.get("callee") or {}).get("cls") == DEC):
+            region = None
+            child = n
+            for p_ in reversed(parents):
+                if p_.get("k") == "If":
+                    for br in (p_.get("then"), p_.get("else")):
+                        if br is not None and any(x is child for x in ir.walk(br)) and ir.always_leaves(br):
+                            region = set(id(x) for x in ir.walk(br))
+                    if region:
+                        break
+                child = p_
+            move_events.append((order[id(n)], region))
+    move_idx = move_events
+    # never-reassigned locals that hold the window size `m_end - m_p` (valid until m_p/m_end next change)
+    aliases = {}
+    for n in ir.walk(fn["body"]):
+        if n.get("k") == "Decl":
+            for v in n.get("vars", []):
+                if "n" in v and v.get("init") is not None:
+                    key = "l:%s#%s" % (v["n"], v["id"])
+                    txt = show(unwrap_all_casts(v["init"]))
+                    if key not in env.assigned and txt.strip("()") == WINDOW:
+                        aliases[key] = order[id(n)]
+    for st, g, loops in ir.guarded_statements_lc(fn["body"], env):
+        if st.get("k") in ("IfCond", "LoopHead", "SwitchHead"):
+            continue
+        atoms = conjuncts(g)
+        here = order.get(id(st), 0)
+
+        def is_window(txt):
+            if WINDOW in txt and "+" not in txt.replace(WINDOW, ""):
+                return True
+            if txt in aliases and not any(aliases[txt] < m < here and (reg is None or id(st) in reg) for m, reg in move_idx):
+                return True
+            return False
+
+        def bounded(nexpr):
+            nk = int_key(nexpr, env)
+            cv = const_value(nexpr)
+            if is_window(nk):
+                return True      # the amount *is* the window size
+            for a in atoms:
+                if a[0] == "cmp" and a[1] in ("<=", "<") and is_window(a[3]):
+                    if a[2] == nk:
+                        return True
+                    if cv is not None and a[2].lstrip("-").isdigit() and int(a[2]) + (1 if a[1] == "<" else 0) >= int(cv):
+                        return True
+            # n = min(x, m_end - m_p)
+            d = env.definition(path(nexpr)) if path(nexpr) else None
+            for cand in (nexpr, d):
+                u = unwrap_all_casts(cand) if cand is not None else None
+                if isinstance(u, dict) and u.get("k") == "Call" and callee_name(u) == "min":
+                    if any(WINDOW in show(x) for x in u.get("args", [])):
+                        return True
+            return False
+
+        for n in ir.walk(st):
+            k = n.get("k")
+            if k == "Bin" and n.get("op") in ("+=", "-=") and path(n.get("lhs")) == ("this", "m_p"):
+                if n["op"] == "-=":
+                    out.append((n, False, "m_p is moved backwards"))
+                    continue
+                ok = bounded(n["rhs"])
+                out.append((n, ok, "cursor advanced by %s, which a dominating guard compares with the bytes left in the window" % show(n["rhs"]) if ok else
+                            "m_p += %s without a dominating comparison of that amount with the window (m_end - m_p): for a length taken from the input the cursor "
+                            "leaves the buffer (or wraps), `m_p == m_end` is never true again and every later read is outside the buffer" % show(n["rhs"])))
+            elif k == "Bin" and n.get("op") == "=" and path(n.get("lhs")) == ("this", "m_p"):
+                r = unwrap_all_casts(n["rhs"])
+                # chained assignment m_p = m_end = m_buffer
+                while isinstance(r, dict) and r.get("k") == "Bin" and r.get("op") == "=":
+                    r = unwrap_all_casts(r["rhs"])
+                rp = path(r)
+                if rp in (("this", "m_buffer"), ("this", "m_end")):
+                    out.append((n, True, "cursor reset to %s" % path_str(rp)))
+                elif isinstance(r, dict) and r.get("k") == "Bin" and r.get("op") == "+" and path(r["lhs"]) == ("this", "m_p"):
+                    ok = bounded(r["rhs"])
+                    out.append((n, ok, "cursor advanced by a window-checked amount" if ok else "m_p = m_p + %s without a window check" % show(r["rhs"])))
+                else:
+                    out.append((n, None, "assignment m_p = %s not understood" % show(n["rhs"])))
+            elif k in ("MCall", "Call", "Construct") and n.get("args"):
+                args = n["args"]
+                for i, a in enumerate(args):
+                    ua = unwrap_all_casts(a)
+                    if path(ua) == ("this", "m_p") and isinstance(ua, dict) and (ua.get("t") or "").endswith("*"):
+                        # bulk read: the length is the next integer argument (append(p,n), memcpy(d,p,n), string(p,n))
+                        ln = None
+                        for b in args[i + 1:]:
+                            ub = unwrap(b)
+                            if isinstance(ub, dict) and not (ub.get("t") or "").endswith("*"):
+                                ln = b
+                                break
+                        if ln is None:
+                            # (first,last) iterator pair: m_p, m_p + n / m_end
+                            nxt = unwrap_all_casts(args[i + 1]) if i + 1 < len(args) else None
+                            if nxt is not None and path(nxt) == ("this", "m_end"):
+                                out.append((n, True, "bulk read of [m_p, m_end)"))
+                                continue
+                            if isinstance(nxt, dict) and nxt.get("k") == "Bin" and nxt.get("op") == "+" and path(nxt["lhs"]) == ("this", "m_p"):
+                                ln = nxt["rhs"]
+                        if ln is None:
+                            out.append((n, None, "m_p is handed to %s in a form the window rule does not understand" % (callee_name(n) or "?")))
+                            continue
+                        ok = bounded(ln)
+                        out.append((n, ok, "bulk read of %s bytes, which a dominating guard compares with the window" % show(ln) if ok else
+                                    "%s reads %s bytes starting at m_p without a dominating comparison of that length with the window (m_end - m_p): "
+                                    "a short refill (truncated input) is padded with stale buffer bytes" % (callee_name(n), show(ln))))
+    return out
